@@ -3,6 +3,7 @@ import FlowRecordProofs.Lemmas.Framing
 import FlowRecordProofs.Lemmas.MsgpackPrefix
 import FlowRecordProofs.Lemmas.StreamCut
 import FlowRecordProofs.Lemmas.StreamExample
+import FlowRecordProofs.Lemmas.WriteFault
 import FlowRecord.Model.Stream
 /-!
 C04 — a damaged stream yields an intact prefix, never altered records. Property theorems only.
@@ -127,6 +128,54 @@ theorem C04_records_prefix (hashOf : Utf8.PyStr → List (Utf8.PyStr × Utf8.PyS
         k < (streamOf fn).length) :=
   readAll_cut hashOf o os st' frames k hw hok hsz
 
+/-- **Failing or short write.** Split the stream into the calls the writer makes on its file object in ANY way
+    (`calls.flatten = stream`; the implementation's own chunking - a 4-byte length, then the blob, per frame - is
+    `writeCalls`, see `C04_writeCalls`). If call number `i` accepts only `j` of its bytes (`j = 0`: the call failed
+    outright, `i` past the last call: nothing failed) and nothing is written afterwards, reading what is on disk yields
+    exactly the first `n` records written, unaltered and in order, then ends cleanly, with "incomplete input" or -
+    inside the header frame - with "not a record stream"; `n` counts exactly the records whose frames are completely
+    on disk. -/
+theorem C04_failing_or_short_write (hashOf : Utf8.PyStr → List (Utf8.PyStr × Utf8.PyStr) → Nat) (o : PV) (os : List PV)
+    (st' : WState) (frames : List Bytes) (calls : List Bytes) (i j : Nat)
+    (hw : writeAll WState.init (o :: os) = some (st', frames))
+    (hcalls : calls.flatten = streamOf frames)
+    (hok : HistOK hashOf [] (o :: os)) (hsz : ∀ b ∈ frames, b.length < 4294967296) :
+    ∃ n e, n ≤ (o :: os).length ∧
+      readAll hashOf (diskAfterFault calls i j) = (rvOfList ((o :: os).take n), e) ∧
+      (e = End.eof ∨ e = End.error .incomplete ∨ (e = End.notAStream ∧ n = 0)) ∧
+      (0 < n → ∀ stn fn, writeAll WState.init ((o :: os).take n) = some (stn, fn) →
+        (streamOf fn).length ≤ (diskAfterFault calls i j).length) ∧
+      (n < (o :: os).length → ∀ stn fn, writeAll WState.init ((o :: os).take (n + 1)) = some (stn, fn) →
+        (diskAfterFault calls i j).length < (streamOf fn).length) := by
+  rw [diskAfterFault_prefix, hcalls]
+  generalize ((calls.take i).flatten).length + min j ((calls[i]?).getD []).length = k
+  obtain ⟨n, e, hn, hr, he, hfull, hfit, hnext⟩ := C04_records_prefix hashOf o os st' frames k hw hok hsz
+  refine ⟨n, e, hn, hr, ?_, ?_, ?_⟩
+  · rcases he with h | h | ⟨h, h0, _⟩
+    · exact Or.inl h
+    · exact Or.inr (Or.inl h)
+    · exact Or.inr (Or.inr ⟨h, h0⟩)
+  · intro hpos stn fn hwn
+    have h1 := hfit hpos stn fn hwn
+    by_cases hk : k ≤ (streamOf frames).length
+    · rw [List.length_take, Nat.min_eq_left hk]; exact h1
+    · -- the cut is beyond the end: everything is on disk, and the first n records are a prefix of everything
+      have hk' : (streamOf frames).length ≤ k := by omega
+      obtain ⟨hnall, _⟩ := hfull hk'
+      rw [List.take_of_length_le hk']
+      rw [hnall, List.take_length] at hwn
+      rw [hw] at hwn
+      cases hwn
+      exact Nat.le_refl _
+  · intro hlt stn fn hwn
+    have h1 := hnext hlt stn fn hwn
+    rw [List.length_take]
+    exact Nat.lt_of_le_of_lt (Nat.min_le_left _ _) h1
+
+/-- the implementation's chunking into write calls (two per frame) is one admissible chunking -/
+theorem C04_writeCalls (frames : List Bytes) : (writeCalls frames).flatten = streamOf frames :=
+  writeCalls_flatten frames
+
 /-- The same for a writer that is appending (header already written, any registry): frames after the header. -/
 theorem C04_records_prefix_continued (hashOf : Utf8.PyStr → List (Utf8.PyStr × Utf8.PyStr) → Nat) (objs : List PV)
     (st st' : WState) (frames : List Bytes) (fuel k : Nat)
@@ -153,3 +202,7 @@ example : ∀ st' frames, writeAll WState.init [StreamExample.o1, StreamExample.
   fun st' frames hw hsz =>
     let ⟨n, e, hn, hr, _⟩ := C04_records_prefix StreamExample.h _ _ st' frames 80 hw StreamExample.hist hsz
     ⟨n, e, hn, hr⟩
+
+-- non-vacuity of C04_failing_or_short_write: the second call (the header blob) of a two-frame stream accepts 3 bytes
+example : diskAfterFault (writeCalls [[1, 2, 3, 4, 5], [6]]) 1 3 = [0, 0, 0, 5, 1, 2, 3] := by decide
+example : diskAfterFault (writeCalls [[1, 2], [6]]) 9 0 = streamOf [[1, 2], [6]] := by decide
